@@ -14,8 +14,7 @@
      the handles stored in the dict (theorem exchange_key_fresh: an entry is never overwritten);
    * random.uniform(lo, hi) is  lo + (hi - lo) * n / 1000  for the next n of a scripted stream [rng]
      (the harness stub does the same integer arithmetic on the arguments it is called with);
-   * only confirmable messages go through send_message; the `while` of _continue_backlog is a loop on fuel (it runs its body
-     once when the released message is accepted by the transport, twice when it is refused);
+   * only confirmable messages go through send_message; the `while` of _continue_backlog is a loop on fuel;
    * a transport that refuses a datagram synchronously (udp6: sendmsg fails, error_received -> MessageManager.dispatch_error
      from INSIDE message_interface.send) is the set [refusing] of remotes; nothing reaches the wire for them;
    * a request id that is not pending in the token manager stands for an unknown token. *)
@@ -168,15 +167,18 @@ Fixpoint _continue_backlog_loop (fuel : nat) (st : state) (r : Z) : state * list
   match fuel with
   | O => (st, [OError (now st) OutOfFuel])
   | S fuel =>
-      if has_exchange_with st r then (st, [])
-      else match qget r (backlogs st) with
-           | None => (st, [OError (now st) KeyError])                     (* self._backlogs[remote] *)
-           | Some ((next_message, monitor) :: rest) =>
-               let '(st, o1) := _send_initially (set_backlogs st (qset r rest (backlogs st))) next_message monitor in
-               let '(st, o2) := _continue_backlog_loop fuel st r in
-               (st, o1 ++ o2)
-           | Some [] => (set_backlogs st (qdel r (backlogs st)), [])
-           end
+      match qget r (backlogs st) with
+      | None => (st, [])                                 (* `remote in self._backlogs and ...` is false (fix 8d04b7c) *)
+      | Some q =>
+          if has_exchange_with st r then (st, [])
+          else match q with
+               | (next_message, monitor) :: rest =>
+                   let '(st, o1) := _send_initially (set_backlogs st (qset r rest (backlogs st))) next_message monitor in
+                   let '(st, o2) := _continue_backlog_loop fuel st r in
+                   (st, o1 ++ o2)
+               | [] => (set_backlogs st (qdel r (backlogs st)), [])
+               end
+      end
   end.
 Definition _continue_backlog (st : state) (r : Z) : state * list output :=
   match qget r (backlogs st) with
@@ -204,11 +206,13 @@ Definition _retransmit (st : state) (h : timer) : state * list output :=
   | Some (monitor, _) =>
       let st := set_exchanges st (xdel k (active_exchanges st)) in
       if h_counter h <? MAX_RETRANSMIT (m_tuning m) then
-        let '(st, o1) := _send_via_transport st m in
         let retransmission_counter := h_counter h + 1 in
         let timeout := h_timeout h * 2 in
         let '(next_retransmission, st) := _schedule_retransmit st m timeout retransmission_counter in
-        (set_exchanges st (xset k (monitor, next_retransmission) (active_exchanges st)), o1)
+        (* the exchange is put back BEFORE the message is handed to the transport (fix 11456f9): a refusing transport's
+           dispatch_error, running inside send(), finds and ends it *)
+        let st := set_exchanges st (xset k (monitor, next_retransmission) (active_exchanges st)) in
+        _send_via_transport st m
       else
         match qget (m_remote m) (backlogs st) with
         | None => (st, [OError (now st) KeyError])                      (* del self._backlogs[message.remote] *)
